@@ -23,11 +23,11 @@ const (
 
 var c07Enums = []string{"bsAscFrom", "bsAscTo", "bsDescTo", "bsDescFrom",
 	"resortKey", "resortCreated", "resortUpdated", "resortExpire", "resortValue"}
-var c07Tris = []string{"pageArith", "limitZeroAll", "comparatorsStandard", "windowOnTimeIndexesOnly",
+var c07Tris = []string{"timestampsFullPrecision", "pageArith", "limitZeroAll", "comparatorsStandard", "windowOnTimeIndexesOnly",
 	"coldFilterCreated", "coldFilterUpdated", "coldFilterExpire", "coldFilterValueType",
 	"addGuardCreated", "addGuardUpdated", "addGuardExpire", "addGuardValueType",
 	"updRefreshCreated", "updRefreshUpdated", "updRefreshValue", "updRefreshExpireOnFlag",
-	"typeChangeDetected", "valueShared", "flagsSticky",
+	"typeChangeDetected", "valueShared", "flagsSticky", "setVoidClearsTyped",
 	"getBeaconServesAllValueTypes", "getBeaconBuildsRequestedType"}
 
 func c07Run(fs *Facts) {
@@ -56,6 +56,11 @@ func c07Run(fs *Facts) {
 		c07LimitZero(fs, f)
 		c07Window(fs, f)
 		c07GetBeacon(fs, f)
+	}
+	if f, err := Load("app/server/gateway/gateway.go"); err != nil {
+		fs.Err("%v", err)
+	} else {
+		c07Timestamps(fs, f)
 	}
 	if f, err := Load(c07Treasure); err != nil {
 		fs.Err("%v", err)
@@ -115,6 +120,8 @@ func c07Bounds(fs *Facts, f *File) {
 	if fd == nil {
 		return
 	}
+	c07Canon(fd, []string{"b", "fromTime", "toTime", "n", "fromNano", "toNano", "isAscending", "startIdx", "endIdx",
+		"l", "r", "m", "l", "r", "m", "l", "r", "m", "l", "r", "m"})
 	var split *ast.IfStmt
 	for _, st := range fd.Body.List {
 		if ifs, ok := st.(*ast.IfStmt); ok && f.Str(ifs.Cond) == "isAscending" {
@@ -158,6 +165,7 @@ func c07Page(fs *Facts, f *File) {
 	if fd == nil {
 		return
 	}
+	c07Canon(fd, []string{"b", "orderPosition", "startIdx", "endIdx", "actualStart", "actualEnd", "resultSize", "result", "i"})
 	want := []string{
 		"startIdx := 0",
 		"endIdx := len(b.treasuresByOrder) - 1",
@@ -196,6 +204,7 @@ func c07Comparators(fs *Facts, f *File) {
 			ok = false
 			break
 		}
+		c07Canon(fd, []string{"b", "k", "l"})
 		less := "return b.treasuresByOrder[k]." + c.getter + "() " + c.op + " b.treasuresByOrder[l]." + c.getter + "()"
 		if len(f.Calls(fd.Body, "sort.Slice")) != 1 || !f.Contains(fd.Body, less) {
 			ok, where = false, c07At(c07Beacon, f, fd)
@@ -221,6 +230,7 @@ func c07Comparators(fs *Facts, f *File) {
 				ok = false
 				break
 			}
+			c07Canon(fd, []string{"b", "k", "l", "kVal", "err", "lVal"})
 			src := f.Str(fd.Body)
 			if len(f.Calls(fd.Body, "sort.Slice")) != 1 || strings.Count(src, "if err != nil { return false }") != 2 ||
 				!strings.Contains(src, "kVal, err := b.treasuresByOrder[k].GetContent"+t+"()") ||
@@ -240,6 +250,7 @@ func c07Comparators(fs *Facts, f *File) {
 			ok = false
 			break
 		}
+		c07Canon(fd, []string{"b", "value", "t", "items", "i", "t", "v", "err", "i", "j", "i", "it"})
 		src := f.Str(fd.Body)
 		if !strings.Contains(src, "v, err := t.GetContentInt64() if err != nil { return fmt.Errorf(") ||
 			len(f.Calls(fd.Body, "sort.SliceStable")) != 1 || !strings.Contains(src, "return items[i].value "+d.op+" items[j].value") ||
@@ -269,9 +280,17 @@ func c07Incremental(fs *Facts, f *File) {
 		if fd == nil || len(fd.Type.Params.List) != 1 || len(fd.Type.Params.List[0].Names) != 1 {
 			continue
 		}
+		c07Canon(fd, []string{"s", "treasureInterface", "err"})
+		c07Canon(fd, []string{"s", "treasureInterface"})
 		arg := fd.Type.Params.List[0].Names[0].Name
 		where := c07At(c07Swamp, f, fd)
 		asc, desc := "s."+s.field+"ASC", "s."+s.field+"DESC"
+		// guard + Reset of both beacons, nothing else: the pair is dropped and rebuilt by the next read
+		if len(fd.Body.List) == 3 && f.Str(fd.Body.List[0]) == "if !"+asc+".IsInitialized() && !"+desc+".IsInitialized() { return }" &&
+			f.Str(fd.Body.List[1]) == asc+".Reset()" && f.Str(fd.Body.List[2]) == desc+".Reset()" {
+			fs.Enum(s.fact, "invalidate", where)
+			continue
+		}
 		// guard + both Adds
 		if !f.Contains(fd.Body, "if !"+asc+".IsInitialized() { return }") ||
 			len(f.Calls(fd.Body, asc+".Add")) != 1 || len(f.Calls(fd.Body, desc+".Add")) != 1 ||
@@ -304,6 +323,7 @@ func c07Cold(fs *Facts, f *File) {
 	if fd == nil {
 		return
 	}
+	c07Canon(fd, []string{"s", "bc", "all", "filtered", "k", "t", "filtered", "k", "t", "filtered", "k", "t"})
 	var sw *ast.SwitchStmt
 	ast.Inspect(fd.Body, func(n ast.Node) bool {
 		if s, ok := n.(*ast.SwitchStmt); ok && sw == nil {
@@ -376,6 +396,7 @@ func c07Guards(fs *Facts, f *File) {
 	if fd == nil || len(fd.Type.Params.List) != 1 || len(fd.Type.Params.List[0].Names) != 1 {
 		return
 	}
+	c07Canon(fd, []string{"s", "d"})
 	arg := fd.Type.Params.List[0].Names[0].Name
 	where := c07At(c07Swamp, f, fd)
 	if len(fd.Body.List) != 5 || f.Str(fd.Body.List[0]) != "s.addToKeyBeacon("+arg+")" {
@@ -407,6 +428,7 @@ func c07Save(fs *Facts, f *File) {
 	if fd == nil {
 		return
 	}
+	c07Canon(fd, []string{"s", "t", "guardID", "existedTreasureObj", "wi", "inMem", "wi", "inMem"})
 	var modified *ast.IfStmt
 	for _, st := range fd.Body.List {
 		if ifs, ok := st.(*ast.IfStmt); ok && strings.HasPrefix(f.Str(ifs.Cond), "t.IsContentChanged() || t.IsContentTypeChanged() || t.IsExpirationTimeChanged()") {
@@ -427,16 +449,34 @@ func c07Save(fs *Facts, f *File) {
 	second, ok := first.Else.(*ast.IfStmt)
 	expOK := ok && f.Str(second.Cond) == "t.IsExpirationTimeChanged()" && second.Else == nil &&
 		f.Str(second.Body) == "{ s.deleteTreasureIfBeaconInitialized(s.expirationTimeBeaconASC, t.GetKey()) s.deleteTreasureIfBeaconInitialized(s.expirationTimeBeaconDESC, t.GetKey()) if t.GetExpirationTime() != 0 { s.addToExpirationTimeBeacon(t) } }"
+	expFact := TriOf(expOK)
 	if first.Else != nil && !expOK {
-		return
+		expFact = Unknown // an else-branch of another shape: only this fact is lost
 	}
-	// no other beacon maintenance anywhere else in the block
+	// after the chain: optional re-filing blocks, each of the known shape; anything else that
+	// touches a beacon makes the facts unknown
+	refile := func(flag, field, getter, add string) string {
+		return "if !t.IsContentTypeChanged() && t." + flag + "() { s.deleteTreasureIfBeaconInitialized(s." + field + "ASC, t.GetKey()) s.deleteTreasureIfBeaconInitialized(s." + field + "DESC, t.GetKey()) if t." + getter + "() != 0 { s." + add + "(t) } }"
+	}
+	upd, crt, val := No, No, No
 	other := 0
 	for _, st := range modified.Body.List[1:] {
+		switch f.Str(st) {
+		case refile("IsModifiedAtChanged", "updateTimeBeacon", "GetModifiedAt", "addToUpdateTimeBeacon"):
+			upd = Yes
+			continue
+		case refile("IsCreatedAtChanged", "creationTimeBeacon", "GetCreatedAt", "addToCreationTimeBeacon"):
+			crt = Yes
+			continue
+		case "if !t.IsContentTypeChanged() && t.IsContentChanged() { s.addToValueBeacon(t) }":
+			val = Yes
+			continue
+		}
 		for _, c := range f.CallsSuffix(st, "") {
 			fn := f.Str(c.Fun)
 			if strings.HasPrefix(fn, "s.addTo") || strings.HasPrefix(fn, "s.deleteTreasure") || strings.HasPrefix(fn, "s.addTreasureToBeacons") ||
-				strings.Contains(fn, ".SortBy") || strings.HasPrefix(fn, "s.buildBeacon") {
+				strings.Contains(fn, ".SortBy") || strings.HasPrefix(fn, "s.buildBeacon") || strings.HasSuffix(fn, "Beacon.Reset") ||
+				strings.HasSuffix(fn, "BeaconASC.Reset") || strings.HasSuffix(fn, "BeaconDESC.Reset") {
 				other++
 			}
 		}
@@ -444,10 +484,10 @@ func c07Save(fs *Facts, f *File) {
 	if other > 0 {
 		return
 	}
-	fs.Tri("updRefreshExpireOnFlag", TriOf(expOK), where)
-	fs.Tri("updRefreshCreated", No, where)
-	fs.Tri("updRefreshUpdated", No, where)
-	fs.Tri("updRefreshValue", No, where)
+	fs.Tri("updRefreshExpireOnFlag", expFact, where)
+	fs.Tri("updRefreshCreated", crt, where)
+	fs.Tri("updRefreshUpdated", upd, where)
+	fs.Tri("updRefreshValue", val, where)
 }
 
 func c07Shared(fs *Facts, f *File) {
@@ -469,6 +509,7 @@ func c07Shared(fs *Facts, f *File) {
 	if fd == nil || at == nil {
 		return
 	}
+	c07Canon(fd, []string{"s", "order", "bc", "from", "limit"})
 	if n == 2 && f.Contains(fd.Body, "s.buildBeacon(s.valueBeaconASC, s.valueBeaconDESC, bc)") &&
 		f.Contains(fd.Body, "return s.valueBeaconASC.GetManyFromOrderPosition(") && f.Contains(fd.Body, "return s.valueBeaconDESC.GetManyFromOrderPosition(") {
 		fs.Tri("valueShared", Yes, c07At(c07Swamp, f, at))
@@ -480,6 +521,7 @@ func c07LimitZero(fs *Facts, f *File) {
 	if fd == nil {
 		return
 	}
+	c07Canon(fd, []string{"s", "beaconType", "beaconOrderType", "from", "limit", "fromTime", "toTime", "selectedTreasures", "err", "returningTreasures", "d"})
 	if f.Contains(fd.Body, "if limit == 0 { limit = int32(s.beaconKey.Count()) }") {
 		fs.Tri("limitZeroAll", Yes, c07At(c07Swamp, f, fd))
 	}
@@ -490,6 +532,7 @@ func c07Window(fs *Facts, f *File) {
 	var at ast.Node
 	for _, fn := range []string{"findInCreationTimeBeacon", "findInUpdateTimeBeacon", "findInExpirationTimeBeacon"} {
 		fd := f.Func("swamp", fn)
+		c07Canon(fd, []string{"s", "order", "from", "limit", "fromTime", "toTime"})
 		if fd == nil || strings.Count(f.Str(fd.Body), "FromTime: fromTime, ToTime: toTime,") != 2 ||
 			strings.Count(f.Str(fd.Body), "From: int(from), Limit: int(limit),") != 2 {
 			ok = false
@@ -498,6 +541,8 @@ func c07Window(fs *Facts, f *File) {
 	}
 	for _, fn := range []string{"findInKeyBeacon", "findInValueBeacon"} {
 		fd := f.Func("swamp", fn)
+		c07Canon(fd, []string{"s", "order", "from", "limit"})
+		c07Canon(fd, []string{"s", "order", "bc", "from", "limit"})
 		if fd == nil || strings.Contains(f.Str(fd.Body), "FromTime") || strings.Count(f.Str(fd.Body), "From: int(from), Limit: int(limit),") != 2 {
 			ok = false
 		}
@@ -512,6 +557,7 @@ func c07GetBeacon(fs *Facts, f *File) {
 	if fd == nil {
 		return
 	}
+	c07Canon(fd, []string{"s", "beaconType", "order"})
 	served := map[string]bool{}
 	requested := true
 	any := false
@@ -583,5 +629,48 @@ func c07Flags(fs *Facts, f *File) {
 		return
 	}
 	fs.Tri("typeChangeDetected", TriOf(setInSetter > 0), c07At(c07Treasure, f, firstSetter))
+	if sv := f.Func("treasure", "SetContentVoid"); sv != nil {
+		c07Canon(sv, []string{"t", "guardID"})
+		src := f.Str(sv.Body)
+		early := strings.Contains(src, "if t.treasure.Content != nil && t.treasure.Content.Void { return }")
+		switch {
+		case early && strings.HasSuffix(src, "t.contentChanged = true t.treasure.Content = &Content{ Void: true, } }"):
+			fs.Tri("setVoidClearsTyped", Yes, c07At(c07Treasure, f, sv))
+		case early && strings.Contains(src, "if t.treasure.Content == nil { t.treasure.Content = &Content{ Void: true, } }") &&
+			strings.Contains(src, "if t.treasure.Content.Void != false { t.treasure.Content.Void = true }"):
+			fs.Tri("setVoidClearsTyped", No, c07At(c07Treasure, f, sv))
+		}
+	}
 	fs.Tri("flagsSticky", TriOf(cleared == 0), c07At(c07Treasure, f, f.Func("treasure", "SetExpirationTime")))
+}
+
+// the gateway hands the window and the three record timestamps on with their nanosecond part
+func c07Timestamps(fs *Facts, f *File) {
+	po := f.Func("", "parseOptionalTimestamps")
+	kv := f.Func("", "keyValuesToTreasure")
+	tk := f.Func("", "treasureToKeyValuePair")
+	if po == nil || kv == nil || tk == nil || len(po.Type.Params.List) == 0 || len(kv.Type.Params.List) < 3 {
+		return
+	}
+	// parameter names as they are in the source (tolerates renames)
+	var pn []string
+	for _, fl := range po.Type.Params.List {
+		for _, n := range fl.Names {
+			pn = append(pn, n.Name)
+		}
+	}
+	if len(pn) != 2 {
+		return
+	}
+	ps := f.Str(po.Body)
+	pair := kv.Type.Params.List[0].Names[0].Name
+	ks := f.Str(kv.Body)
+	ok := strings.Contains(ps, ":= "+pn[0]+".AsTime()") && strings.Contains(ps, ":= "+pn[1]+".AsTime()") &&
+		strings.Contains(ks, "SetCreatedAt(guardID, "+pair+".GetCreatedAt().AsTime())") &&
+		strings.Contains(ks, "SetModifiedAt(guardID, "+pair+".GetUpdatedAt().AsTime())") &&
+		strings.Contains(ks, "SetExpirationTime(guardID, "+pair+".GetExpiredAt().AsTime())")
+	where := "app/server/gateway/gateway.go:" + itoa(f.Line(po))
+	if ok {
+		fs.Tri("timestampsFullPrecision", Yes, where)
+	}
 }
